@@ -76,6 +76,9 @@ def literals(rng, n_random, thorough):
         elif r < 0.95: ex = rng.choice("eE") + rng.choice(["", "+", "-"]) + str(rng.randrange(280, 345))
         else: ex = rng.choice("eE") + rng.choice(["", "+", "-"]) + rng.choice(["0", "00", "007", "999", "4000", "12345"])
         out.append(sign + ip + fp + ex + rng.choice(tails))
+    # literals longer than 255 / 1000 characters (digit counters that do not fit a byte)
+    out += ["1" + "0" * 300, "1" + "0" * 310, "0." + "0" * 300 + "123", "0." + "0" * 330 + "5", "123456789" * 40 + "e-300", "9" * 1000 + "e-980",
+            "0" * 300 + "1.5", "1." + "3" * 700, "-" + "7" * 260 + "." + "1" * 260 + "e-250x", "1e" + "0" * 300 + "5", "5e-" + "0" * 280 + "3"]
     out += ["1.7976931348623157e308", "1.7976931348623159e308", "1.8e308", "2.2250738585072014e-308", "4.9406564584124654e-324", "2.4703282292062327e-324", "2.48e-324", "1e-400", "1e400",
             "3.4028234e38", "3.4028236e38", "1.17549435e-38", "1.4e-45", "0.7e-45", "1e-50", "307582293.333333", "0.1", "0.2", "0.3", "123456789012345678", "9007199254740993", "9007199254740992.5",
             "0e5", "0.0e-5", "-0", "-0.0", "000001", "1e0", "1e-0", "1e+0", "0000.00001e5"]
